@@ -749,21 +749,19 @@ func getDirectTextContent(n *html.Node) string {
 	return strings.TrimSpace(result.String())
 }
 
-// forEachNestedList calls fn for every list nested in a list item, whether it is a
-// direct child of the item or wrapped in a block child; it does not look inside the
-// lists it finds.
+// forEachNestedList calls fn for every list - and every table - nested in a list
+// item, whether it is a direct child of the item or wrapped in a block child; it does
+// not look inside the lists and tables it finds.
 func forEachNestedList(n *html.Node, fn func(list *html.Node)) {
 	for c := n.FirstChild; c != nil; c = c.NextSibling {
 		if c.Type != html.ElementNode {
 			continue
 		}
-		if c.Data == "ul" || c.Data == "ol" {
+		if c.Data == "ul" || c.Data == "ol" || c.Data == "table" {
 			fn(c)
 			continue
 		}
-		if c.Data != "table" {
-			forEachNestedList(c, fn)
-		}
+		forEachNestedList(c, fn)
 	}
 }
 
@@ -1091,9 +1089,13 @@ func (r *Reader) DocumentWithOptions(opts ExtractOptions) (*model.Document, erro
 		case ElementTable:
 			if elem.Table != nil && len(elem.Table.Rows) > 0 {
 				numRows := len(elem.Table.Rows)
+				// The widest row decides the number of columns (a first row with one
+				// spanning cell is narrower than the rows under it)
 				numCols := 0
-				if numRows > 0 {
-					numCols = len(elem.Table.Rows[0])
+				for _, row := range elem.Table.Rows {
+					if len(row) > numCols {
+						numCols = len(row)
+					}
 				}
 
 				modelTable := model.NewTable(numRows, numCols)
